@@ -215,3 +215,48 @@ theorem scatter1_gather1_adjoint (k N lo step : Nat) (hs : 0 < step) (hfit : lo 
     have h1 : lo + i * step - lo = i * step := by omega
     rw [h1, Nat.mul_div_cancel _ hs]
 end C06L
+namespace C06L
+variable {C : Type} [Field C] (conj : C →+* C)
+
+/-- modal sum: `⟨d, Σ_k w_k M_k⟩ = Σ_k (Σ_ij M_k d)_k w_k` for self-conjugate (real) modes -/
+theorem modal_adjoint' (k m n : Nat) (modes : Nat → Mat C) (hreal : ∀ l i j, conj (modes l i j) = modes l i j)
+    (w : Vec C) (d : Mat C) :
+    ip2 conj m n d (modalSum k modes w) = ip conj k (modalBack m n modes d) w := by
+  simp only [ip2, ip, modalSum, modalBack, sumTo_eq, map_sum, map_mul, hreal, Finset.mul_sum, Finset.sum_mul]
+  rw [sum3_rot, Finset.sum_congr rfl fun l _ => Finset.sum_comm]
+  refine Finset.sum_congr rfl fun l _ => Finset.sum_congr rfl fun i _ => Finset.sum_congr rfl fun j _ => ?_
+  ring
+
+/-- shifted difference: the kernel form `D i j = [1 ≤ i ≤ n−2]([j = i+1] − [j = i])` -/
+theorem diff_adjoint' (n : Nat) (x y : Vec C) :
+    ip conj n y (diffFwd n x) = ip conj n (diffBack n y) x := by
+  simp only [ip, diffFwd, diffBack, sumTo_eq, ofInt_eq, Int.cast_zero]
+  -- split both sides into the `+` part and the `−` part
+  have eL : ∀ i, conj (y i) * (if 1 ≤ i ∧ i + 1 < n then x (i + 1) - x i else 0)
+      = (if 1 ≤ i ∧ i + 1 < n then conj (y i) * x (i + 1) else 0)
+        - (if 1 ≤ i ∧ i + 1 < n then conj (y i) * x i else 0) := by
+    intro i; split <;> ring
+  have eR : ∀ j, conj ((if 2 ≤ j ∧ j < n then y (j - 1) else 0) - (if 1 ≤ j ∧ j + 1 < n then y j else 0)) * x j
+      = (if 2 ≤ j ∧ j < n then conj (y (j - 1)) * x j else 0)
+        - (if 1 ≤ j ∧ j + 1 < n then conj (y j) * x j else 0) := by
+    intro j; split <;> split <;> simp only [map_sub, map_zero] <;> ring
+  simp only [eL, eR, Finset.sum_sub_distrib]
+  congr 1
+  -- Σ_i [1 ≤ i, i+1 < n] conj(y i) x(i+1)  =  Σ_j [2 ≤ j < n] conj(y (j-1)) x j
+  by_cases hn : n < 3
+  · rw [Finset.sum_eq_zero, Finset.sum_eq_zero]
+    · intro i _; rw [if_neg]; omega
+    · intro i _; rw [if_neg]; omega
+  · have hL : ∀ i, (if 1 ≤ i ∧ i + 1 < n then conj (y i) * x (i + 1) else 0)
+        = (if 1 ≤ i ∧ i < 1 + (n - 2) then conj (y i) * x (i + 1) else 0) := by
+      intro i; refine if_congr ?_ rfl rfl; omega
+    have hR : ∀ j, (if 2 ≤ j ∧ j < n then conj (y (j - 1)) * x j else 0)
+        = (if 2 ≤ j ∧ j < 2 + (n - 2) then conj (y (j - 1)) * x j else 0) := by
+      intro j; refine if_congr ?_ rfl rfl; omega
+    simp only [hL, hR]
+    rw [sum_window n (n - 2) 1 (by omega) (fun i => conj (y i) * x (i + 1)),
+      sum_window n (n - 2) 2 (by omega) (fun j => conj (y (j - 1)) * x j)]
+    refine Finset.sum_congr rfl fun i _ => ?_
+    have : i + 2 - 1 = i + 1 := by omega
+    rw [this]
+end C06L
